@@ -145,6 +145,10 @@ class C09(Property):
                         ['Stmt' + x for x in STMT_KINDS] + ['Expr' + x for x in EXPR_KINDS])
         if k == 7:
             typed = cs.pick(['Suite', 'Suite', 'ModModule', 'Stmt', 'ModInteractive', 'Expr', 'ModExpression'])
+        elif k in (4, 6) and cs.bool(110):
+            # the typed parser of the kind the text really is (decided in check() from the module / expression trees): the
+            # accepting side of the ~55 per-kind parsers, which a kind picked blindly meets once in ~70 texts
+            typed = 'MATCH'
         return {'k': 'text', 'text': text, 'off': off, 'typed': typed}
 
     def nontrivial(self, case, ctx):
@@ -253,6 +257,15 @@ class C09(Property):
         typed = case['typed']
         tys = (['Suite', 'Stmt', 'Expr', 'Identifier', 'Constant', 'ModModule', 'ModExpression', 'ModInteractive'] + ['Stmt' + x for x in STMT_KINDS] +
                ['Expr' + x for x in EXPR_KINDS]) if typed == 'ALL' else [typed]
+        if typed == 'MATCH':
+            tys = []
+            if 'ok' in ex and len(ex['ok']['body']) == 1 and ex['ok']['body'][0]['_'] in STMT_KINDS:
+                tys.append('Stmt' + ex['ok']['body'][0]['_'])
+            if 'ok' in ev and ev['ok']['body']['_'] in EXPR_KINDS:
+                tys.append('Expr' + ev['ok']['body']['_'])
+            for ty in tys:
+                ctx.count('typed_kind_matching_the_text')
+            tys = tys or ['Stmt']
         for ty in tys:
             self.check_typed(ty, text, k, ex, ev, si, sut, bad, ctx)
         if typed in ('Suite', 'Expr', 'ALL'):
